@@ -19,7 +19,7 @@ RULE = ('files of every length 0..N (and lengths around the 1 MiB streaming buff
         '(blanks, signs, underscores, Unicode digits, other units, extra dashes, empty) x If-Modified-Since before/equal/after the '
         'mtime in the three HTTP date formats, garbage and "; length=" suffixes x GET and HEAD, served through Ombott.__call__. '
         'Non-trivial = a Range or If-Modified-Since header is present; distinct = distinct (length, method, Range, IMS class).')
-REQUIRED = ['status_206', 'status_416', 'status_200', 'status_304', 'head_compared', 'slice_compared', 'grammar_satisfiable',
+REQUIRED = ['mtime_with_subsecond_part', 'ranges_crossing_a_buffer_boundary_before_eof', 'status_206', 'status_416', 'status_200', 'status_304', 'head_compared', 'slice_compared', 'grammar_satisfiable',
             'grammar_unsatisfiable', 'near_miss', 'multi_range', 'suffix_range', 'open_range', 'clipped_end', 'ims_equal', 'ims_before', 'ims_after']
 EXHAUSTIVE = {'quick': False, 'thorough': False,
               'quick_note': 'complete for lengths 0..12 x all single ranges with bounds in -1..len+2',
@@ -75,7 +75,7 @@ def file_content(n):
 
 
 class Site:
-    def __init__(self):
+    def __init__(self, fracs=(0, 500_000_000, 1_000, 999_999_000)):
         import ombott
         from ombott.static_stream import static_file
         import mimetypes
@@ -87,6 +87,7 @@ class Site:
         base = self.base
         self.app.route('/f/<name>', ['GET', 'HEAD'], lambda name: static_file(name, root=base))
         self.files = {}
+        self.fracs = fracs
 
     def file(self, n):
         if n not in self.files:
@@ -94,7 +95,9 @@ class Site:
             data = file_content(n)
             with open(p, 'wb') as f:
                 f.write(data)
-            os.utime(p, (MTIME, MTIME))
+            # HTTP dates have one-second resolution; file systems do not: give the files sub-second modification times
+            frac = self.fracs[len(self.files) % len(self.fracs)]
+            os.utime(p, ns=(MTIME * 10**9 + frac, MTIME * 10**9 + frac))
             self.files[n] = data
         return f'f{n}.bin', self.files[n]
 
@@ -299,7 +302,12 @@ def http_dates(t):
 
 
 def cond_unit(ctx, unit):
-    site = Site()
+    for frac in (0, 500_000_000, 1_000, 999_999_000):
+        ctx.count('mtime_with_subsecond_part' if frac else 'mtime_on_a_whole_second')
+        _cond_site(ctx, unit, Site(fracs=(frac,)))
+
+
+def _cond_site(ctx, unit, site):
     try:
         for n in unit['lens']:
             for delta, cname in [(-86400 * 400, 'ims_before'), (-1, 'ims_before'), (0, 'ims_equal'), (1, 'ims_after'), (86400 * 365, 'ims_after')]:
@@ -339,10 +347,13 @@ def big_unit(ctx, unit):
         for n in unit['lens']:
             do_case(ctx, site, n, None, ('full',), 'big file, no range', both_methods=True)
             do_case(ctx, site, n, None, ('full',), 'big file, no range, server file_wrapper', both_methods=False, fw=True)
-            pts = sorted({0, 1, BUF - 1, BUF, BUF + 1, n - 1, n - 2, n // 2} & set(range(n)))
-            specs = [('fl', a, b) for a in pts for b in pts if a <= b] + [('f', a) for a in pts] + [('s', s) for s in (1, BUF, BUF + 1, n, n + 5)]
+            pts = sorted({0, 1, 7, BUF - 10, BUF - 1, BUF, BUF + 1, BUF + 50, 2 * BUF - 1, 2 * BUF, 2 * BUF + 3, n - 1, n - 2, n // 2} & set(range(n)))
+            specs = [('fl', a, b) for a in pts for b in pts if a <= b] + [('f', a) for a in pts] + [('s', s) for s in (1, 60, BUF, BUF + 1, n - 7, n, n + 5)]
             for spec in specs:
-                do_case(ctx, site, n, 'bytes=' + render_spec(spec), expectation(ref_first_range(spec, n)), 'big file', both_methods=False)
+                ref = ref_first_range(spec, n)
+                if isinstance(ref, tuple) and ref[1] < n and ref[0] // BUF != (ref[1] - 1) // BUF:
+                    ctx.count('ranges_crossing_a_buffer_boundary_before_eof')
+                do_case(ctx, site, n, 'bytes=' + render_spec(spec), expectation(ref), 'big file', both_methods=False)
                 ctx.count('big_file_ranges')
     finally:
         site.close()
@@ -353,12 +364,12 @@ def plan(tier, seed):
         units = [{'kind': 'grid', 'lens': [n]} for n in range(0, 13)]
         units += [{'kind': 'misc', 'lens': [0, 1, 2, 5, 12, 100], 'n': 1500}]
         units += [{'kind': 'cond', 'lens': [0, 1, 10]}]
-        units += [{'kind': 'big', 'lens': [BUF + 1]}]
+        units += [{'kind': 'big', 'lens': [BUF + 100]}]
     else:
         units = [{'kind': 'grid', 'lens': [n]} for n in range(0, 41)]
         units += [{'kind': 'misc', 'lens': [0, 1, 2, 3, 5, 12, 40, 100, 5000], 'n': 8000, 'sub': i} for i in range(8)]
         units += [{'kind': 'cond', 'lens': [0, 1, 2, 10, 1000]}]
-        units += [{'kind': 'big', 'lens': [m]} for m in (BUF - 1, BUF, BUF + 1, 2 * BUF + 5)]
+        units += [{'kind': 'big', 'lens': [m]} for m in (BUF - 1, BUF, BUF + 1, BUF + 100, 2 * BUF + 5, 3 * BUF + 4321)]
     return units
 
 
